@@ -524,9 +524,13 @@ def check_byte_order(chk, m, fn, p, pathid, mt, item, SZ):
         return
     if direction == "pack":
         stores = {}
+        little = str(m.d.get("datalayout", "e")).startswith("e")
         for e in p.events:
             if e.kind == "store" and item(e.ptr) is not None and not item(e.ptr)[1]:
-                stores[item(e.ptr)[0]] = e
+                # a store of n bytes writes n output bytes: on a little-endian target byte j of the stored value goes to offset + j
+                nb = e.size or 1
+                for j in range(nb):
+                    stores[item(e.ptr)[0] + j] = (e, j if little else nb - 1 - j)
 
         def src_of(x):
             if x == ("arg", 1):
@@ -534,23 +538,35 @@ def check_byte_order(chk, m, fn, p, pathid, mt, item, SZ):
                 return ("value", bits // 8)
             return None
         for k in range(width):
-            e = stores.get(k)
+            e, lane = stores.get(k, (None, 0))
             want = k if order == "le" else width - 1 - k
             if e is None:
                 chk.ob("P5.byte-order", "%s byte %d" % (pathid, k), False, "output byte %d is never written" % k, p.ret_inst.loc, name)
                 continue
             ln = lanes_of(e.val, src_of)
-            got = ln[0] if ln else None
+            got = ln[lane] if ln and lane < len(ln) else None
             ok = got == ("src", "value", want)
             # bytes beyond the declared argument width of a sign/zero-extended narrower argument
             chk.ob("P5.byte-order", "%s byte %d" % (pathid, k), ok,
                    "output byte %d must be byte %d of the value ('%s'); abstract lane: %s" % (k, want, order, got),
                    e.inst.loc, name)
     else:
+        little = str(m.d.get("datalayout", "e")).startswith("e")
+
         def src_of(x):
             if x[0] == "ld" and x[2] == 1 and item(x[1]) is not None and not item(x[1])[1]:
                 return ("mem%d" % item(x[1])[0], 1)
+            if x[0] == "ld" and x[2] in (2, 4, 8) and item(x[1]) is not None and not item(x[1])[1]:
+                return ("memW%d.%d" % (item(x[1])[0], x[2]), x[2])       # a load of several input bytes at once
             return None
+
+        def is_input_byte(lane, want):
+            if lane == ("src", "mem%d" % want, 0):
+                return True
+            if isinstance(lane, tuple) and len(lane) == 3 and lane[0] == "src" and str(lane[1]).startswith("memW"):
+                o, nb = (int(t) for t in lane[1][4:].split("."))
+                return (o + lane[2] if little else o + nb - 1 - lane[2]) == want
+            return False
         r = p.ret
         if r is None:
             return
@@ -559,7 +575,7 @@ def check_byte_order(chk, m, fn, p, pathid, mt, item, SZ):
         ln = (ln + [0] * 8)[:max(1, rbits // 8)]
         for j in range(width):
             want = j if order == "le" else width - 1 - j
-            ok = j < len(ln) and ln[j] == ("src", "mem%d" % want, 0)
+            ok = j < len(ln) and is_input_byte(ln[j], want)
             chk.ob("P5.byte-order", "%s value byte %d" % (pathid, j), ok,
                    "byte %d of the result must be input byte %d ('%s', zero-extended before shifting); abstract lane: %s"
                    % (j, want, order, ln[j] if j < len(ln) else None), p.ret_inst.loc, name)
